@@ -37,3 +37,9 @@ Proof.
       (bacc b), noacc, one, (Z.of_nat (length (bready b)) =? 0), (entry L + bu b <=? bclock b),
       (bu b <=? tob (bclock b) L), (bD b <=? tob (bclock b) f); reflexivity.
 Qed.
+
+(* the continuous conveyor's stall test, regenerated from ConveyorBelt.is_stalled (edges/continuous_conveyor.py): the belt is
+   stalled exactly when an item waits at the exit -- whether or not the destination has already claimed it (fix a6eee90: the test
+   used to require that no retrieval was granted, so a claimed head did not stop a non-accumulating belt) *)
+Lemma cont_is_stalled_src : forall l, ContBelt_is_stalled l = negb (n_ready_items l =? 0).
+Proof. intros l. unfold ContBelt_is_stalled. destruct (negb (n_ready_items l =? 0)); reflexivity. Qed.
